@@ -343,7 +343,7 @@ func (c *vsCluster) classObjs() []client.Object {
 
 func (g vsGateway) obj() client.Object {
 	gw := &gatewayv1.Gateway{
-		ObjectMeta: metav1.ObjectMeta{Namespace: g.NS, Name: g.Name, CreationTimestamp: vsTime(g.TS), Generation: 1},
+		ObjectMeta: metav1.ObjectMeta{Namespace: g.NS, Name: g.Name, CreationTimestamp: vsTime(g.TS), Generation: g.TS + 1},
 		Spec:       gatewayv1.GatewaySpec{GatewayClassName: gatewayv1.ObjectName(g.Class)},
 	}
 	for _, l := range g.Listeners {
@@ -477,7 +477,7 @@ func vsHostnames(hs []string) []gatewayv1.Hostname {
 }
 
 func (r vsRoute) obj() client.Object {
-	meta := metav1.ObjectMeta{Namespace: r.NS, Name: r.Name, CreationTimestamp: vsTime(r.TS), Generation: 1}
+	meta := metav1.ObjectMeta{Namespace: r.NS, Name: r.Name, CreationTimestamp: vsTime(r.TS), Generation: r.TS + 1}
 	if r.GRPC {
 		gr := &gatewayv1.GRPCRoute{ObjectMeta: meta, Spec: gatewayv1.GRPCRouteSpec{
 			CommonRouteSpec: gatewayv1.CommonRouteSpec{ParentRefs: vsParents(r.Parents)}, Hostnames: vsHostnames(r.Hosts)}}
